@@ -108,7 +108,9 @@ def _targets() -> list[Any]:
     import liquid2.builtin.filters.misc as misc
     import liquid2.context as context
 
-    return [context, misc]
+    import dateutil.parser._parser as du  # completes partial dates ('10:30', 'March 5') from datetime.now()
+
+    return [context, misc, du]
 
 
 @contextmanager
